@@ -4,6 +4,7 @@ import nodecheck
 PROFILE = dict(outbound=0.5)
 W = nodecheck.weights(close=2.5, readerr=2, accept=5, cer=9, tick=5)
 N_QUICK, N_THOROUGH, LENGTH = 60, 1500, 18
+THEMES = (("handshake_in", 2, 60, 3, 600), ("handshake_out", 2, 60, 3, 600), ("ready", 2, 40, 2, 2000))
 FILES = ["Props/C13.v"]
 
 
@@ -43,7 +44,7 @@ def corpus():
 
 
 def check(run):
-    return nodecheck.run(run, "C13", FILES, PROFILE, W, N_QUICK, N_THOROUGH, LENGTH, known=known, extra_scenarios=corpus())
+    return nodecheck.run(run, "C13", FILES, PROFILE, W, N_QUICK, N_THOROUGH, LENGTH, themes=THEMES, known=known, extra_scenarios=corpus())
 
 
 replay = nodecheck.replay_generic
